@@ -38,6 +38,9 @@ Definition frame_agree (c : frame_case) : bool :=
   list_eqb Z.eqb (List.map fst (fst (alloc_history 0 sizes))) offs && (frame_bytes sizes clob =? frame).
 Definition frame_impl_ok (c : frame_case) : bool :=
   let '(sizes, clob, offs, frame) := c in
-  Nat.eqb (List.length sizes) (List.length offs) && locals_spec_b (List.combine offs sizes) frame.
+  Nat.eqb (List.length sizes) (List.length offs) && locals_spec_b (List.combine offs sizes) frame
+  (* a function that writes the base pointer needs a non-empty frame: only then does the assembler
+     save and restore BP (C15), whatever else the function contains *)
+  && (negb clob || (0 <? frame)).
 Definition indices_where_Z {A} (f : A -> bool) (l : list A) : list N :=
   List.map (fun p => N.of_nat (fst p)) (List.filter (fun p => f (snd p)) (index_list l)).
